@@ -23,6 +23,7 @@ type c09prog struct {
 	// the derive call is well-formed and supported: a run that exits 0 must define it
 	mustGenerate bool
 	args         []string // goderive arguments (default ".")
+	onlyIn       string   // derived.gen.go may only appear in this directory
 	mustFail     bool     // the invocation contains an unsupported call: exit 0 is a violation
 }
 
@@ -208,10 +209,20 @@ func c09Programs(tier string) []c09prog {
 		{"valid-call-next-to-unresolvable-call", pkgFiles{"a.go": good + "\nfunc use2() {\n\tderiveHash(nope)\n}\n"}, false},
 		{"empty-package-clause-only", pkgFiles{"a.go": "package m\n"}, false},
 		{"call-in-test-file-only", pkgFiles{"a.go": "package m\n\ntype S struct{ A int }\n", "a_test.go": "package m\n\nfunc use(a, b *S) bool {\n\treturn deriveEqual(a, b)\n}\n"}, false},
+		{"dot-import-of-unsafe-with-bare-calls", pkgFiles{"a.go": "package m\n\nimport . \"unsafe\"\n\ntype S struct {\n\tA int\n\tB []string\n}\n\nvar size = Sizeof(S{})\n\nfunc use(a, b *S) bool {\n\t_ = Pointer(a)\n\treturn deriveEqual(a, b)\n}\n"}, true},
+		{"dot-import-of-a-module-package", pkgFiles{"a.go": "package m\n\nimport . \"example.com/m/lib\"\n\nfunc use(a, b *Thing) bool {\n\t_ = Make()\n\treturn deriveEqual(a, b)\n}\n", "lib/lib.go": "package lib\n\ntype Thing struct {\n\tA int\n\tL []string\n}\n\nfunc Make() *Thing { return nil }\n"}, true},
+		{"line-directive-before-package-clause", pkgFiles{"gen/a.go": "//line ../tmpl/point.tmpl:2\npackage gen\n\ntype S struct {\n\tA int\n\tB []string\n}\n\nfunc use(a, b *S) bool {\n\treturn deriveEqual(a, b)\n}\n", "tmpl/point.tmpl": "template text\n", "tmpl/keep.go": "package tmpl\n"}, false},
+		{"method-value-and-conversion-calls", pkgFiles{"a.go": "package m\n\ntype S struct {\n\tA int\n\tB []string\n}\n\ntype F func(int) int\n\nfunc (s *S) M(x int) int { return x }\n\nfunc use(a, b *S) bool {\n\tf := a.M\n\t_ = F(f)(1) + int(float64(2)) + len(a.B)\n\treturn deriveEqual(a, b)\n}\n"}, true},
+		{"generic-function-next-to-the-call", pkgFiles{"a.go": "package m\n\ntype S struct {\n\tA int\n\tB []string\n}\n\nfunc Map[T, U any](f func(T) U, l []T) []U { return nil }\n\nfunc use(a, b *S) bool {\n\t_ = Map(func(i int) string { return \"\" }, []int{1})\n\treturn deriveEqual(a, b)\n}\n"}, true},
 		{"user-package-named-like-a-generated-import", pkgFiles{"a.go": "package m\n\nimport \"example.com/m/sort\"\n\nfunc use(x []string) []string {\n\t_ = sort.X\n\treturn deriveSort(x)\n}\n", "sort/sort.go": "package sort\n\nvar X = 1\n"}, true},
 	}
 	for _, b := range broken {
-		out = append(out, c09prog{label: "broken user package: " + b.name, class: "broken=" + b.name, plugin: "equal", call: "derive", files: b.files, mustGenerate: b.mustGen})
+		pr := c09prog{label: "broken user package: " + b.name, class: "broken=" + b.name, plugin: "equal", call: "derive", files: b.files, mustGenerate: b.mustGen}
+		if b.name == "line-directive-before-package-clause" {
+			pr.args = []string{"./gen"}
+			pr.onlyIn = "gen"
+		}
+		out = append(out, pr)
 	}
 	// 4. several packages in one invocation, one of them with an unsupported call: the
 	// order in which the loader hands packages over is unspecified, so each layout is
@@ -271,7 +282,9 @@ func checkC09(tier string) {
 		snapRuns++
 		mu.Unlock()
 		// C10's no-flag clause holds on every one of these runs too
-		if d := snapDiff(before, after, func(rel string) bool { return filepath.Base(rel) == "derived.gen.go" }); len(d) > 0 {
+		if d := snapDiff(before, after, func(rel string) bool {
+			return filepath.Base(rel) == "derived.gen.go" && (pr.onlyIn == "" || filepath.Dir(rel) == pr.onlyIn)
+		}); len(d) > 0 {
 			viol("C10", "touches-other-files", strings.Join(d, ", "))
 		}
 		outcome := ""
